@@ -151,6 +151,70 @@ fn parse_tar(bytes: &[u8]) -> Result<(Listing, Vec<String>), String> {
     Ok((files, dirs))
 }
 
+/// Minimal independent zip reader: end-of-central-directory -> central directory -> local headers; stored or deflated
+/// data, CRC-32 verified. Returns files + symlinks (by unix mode in the external attributes) and directory names.
+fn parse_zip(z: &[u8]) -> Result<(Listing, Vec<String>), String> {
+    let u16_at = |p: usize| -> Result<usize, String> { z.get(p..p + 2).map(|b| u16::from_le_bytes([b[0], b[1]]) as usize).ok_or_else(|| "truncated".to_string()) };
+    let u32_at = |p: usize| -> Result<usize, String> {
+        z.get(p..p + 4).map(|b| u32::from_le_bytes([b[0], b[1], b[2], b[3]]) as usize).ok_or_else(|| "truncated".to_string())
+    };
+    if z.len() < 22 {
+        return Err("shorter than an end-of-central-directory record".into());
+    }
+    let eocd = (0..=z.len() - 22).rev().find(|&p| &z[p..p + 4] == b"PK\x05\x06").ok_or("no end-of-central-directory record")?;
+    let count = u16_at(eocd + 10)?;
+    let mut p = u32_at(eocd + 16)?;
+    let (mut files, mut dirs): (Listing, Vec<String>) = (Vec::new(), Vec::new());
+    for _ in 0..count {
+        if z.get(p..p + 4) != Some(b"PK\x01\x02") {
+            return Err(format!("no central directory header at {p}"));
+        }
+        let method = u16_at(p + 10)?;
+        let crc = u32_at(p + 16)? as u32;
+        let (csize, usize_) = (u32_at(p + 20)?, u32_at(p + 24)?);
+        let (nlen, xlen, clen) = (u16_at(p + 28)?, u16_at(p + 30)?, u16_at(p + 32)?);
+        let mode = (u32_at(p + 38)? >> 16) as u32;
+        let local = u32_at(p + 42)?;
+        let name = String::from_utf8_lossy(z.get(p + 46..p + 46 + nlen).ok_or("truncated name")?).to_string();
+        p += 46 + nlen + xlen + clen;
+        if z.get(local..local + 4) != Some(b"PK\x03\x04") {
+            return Err(format!("no local header for {name}"));
+        }
+        let (lnlen, lxlen) = (u16_at(local + 26)?, u16_at(local + 28)?);
+        if z.get(local + 30..local + 30 + lnlen) != Some(name.as_bytes()) {
+            return Err(format!("local header name differs for {name}"));
+        }
+        let start = local + 30 + lnlen + lxlen;
+        let raw = z.get(start..start + csize).ok_or_else(|| format!("data of {name} is truncated"))?;
+        let data = match method {
+            0 => raw.to_vec(),
+            8 => {
+                let mut out = Vec::with_capacity(usize_);
+                flate2::read::DeflateDecoder::new(raw).read_to_end(&mut out).map_err(|e| format!("inflate {name}: {e}"))?;
+                out
+            }
+            m => return Err(format!("unsupported compression method {m} for {name}")),
+        };
+        if data.len() != usize_ {
+            return Err(format!("{name}: {} bytes, directory says {usize_}", data.len()));
+        }
+        let mut c = flate2::Crc::new();
+        c.update(&data);
+        if c.sum() != crc {
+            return Err(format!("{name}: CRC mismatch"));
+        }
+        if let Some(d) = name.strip_suffix('/') {
+            dirs.push(d.to_string());
+        } else if mode & 0o170000 == 0o120000 {
+            files.push((name, "link", data));
+        } else {
+            files.push((name, if mode & 0o100 != 0 { "exe" } else { "file" }, data));
+        }
+    }
+    files.sort();
+    Ok((files, dirs))
+}
+
 fn brief(l: &Listing) -> String {
     l.iter().map(|(p, k, c)| format!("{p}:{k}:{}B", c.len())).collect::<Vec<_>>().join(", ")
 }
@@ -162,10 +226,11 @@ pub fn run(run: &'static Run) {
     run.rule(format!(
         "trees = every assignment of (absent | one of kinds {kind_names:?}) to the path slots {SLOTS:?} with fewer than {} entries, \
          plus all trees with exactly that many entries over the kinds empty/buf+1/exe/link/sub; \
-         file sizes around the stream buffer (65535 bytes); x additional entry in {{none, file, exe, link, dir}} for trees with <=1 entry, {{none, file}} otherwise (quick: {{file}} only). Per case: (1) stream entries \
+         file sizes around the stream buffer (65535 bytes); x additional entry in {{none, file, exe, link, dir}} for trees with <=1 entry, {{none, file}} otherwise \
+         (quick: 2-entry trees only on the slot pairs (a, d/e/c) and (d/b, d/e/c); extras {{none, file, link}} for 1-entry trees, {{file}} for 2-entry trees). Per case: (1) stream entries \
          (path, mode, id, content) == blobs/executables/symlinks of the tree + the additional entry, each once; (2) tar written by gix-archive == `git archive --format=tar` + the additional entry, both read by an independent header reader \
-         (checksums verified), and for trees with <=1 entry additionally extracted with tar(1); (3) zip written by gix-archive, read with \
-         unzip(1): names, unix modes (symlink / executable bit), contents == the same listing. non-trivial = the tree has at least one streamed entry.",
+         (checksums verified), and additionally extracted with tar(1) for trees with <=1 entry (quick: the empty tree with every extra + each kind once at d/e/c); (3) zip written by gix-archive, read by an independent \
+         central-directory reader (inflate + CRC) and, for the same trees, extracted with unzip(1): names, unix modes (symlink / executable bit), contents == the same listing. non-trivial = the tree has at least one streamed entry.",
         if quick { 2 } else { 3 }
     ));
     run.assume("git archive, GNU tar and Info-ZIP unzip are trusted; only files and symlinks are compared (git archive adds an empty directory per gitlink, gitoxide documents that it streams none); permissions are compared by the executable bit only (git applies tar.umask)");
@@ -179,11 +244,23 @@ pub fn run(run: &'static Run) {
     let commit = git::git_text(&dir, &["commit-tree", "-m", "sub", &empty_tree]);
     let mut table: HashMap<String, (String, String)> = HashMap::new();
     let mut content: HashMap<String, (&'static str, Vec<u8>)> = HashMap::new();
+    // all blobs with one `hash-object --stdin-paths` call
+    let blob_dir = vkit::scratch::Dir::new("c55blobs");
+    let mut paths = String::new();
+    for (i, (name, _, bytes)) in kinds.iter().enumerate() {
+        if *name != "sub" {
+            let p = blob_dir.join(format!("{i}"));
+            std::fs::write(&p, bytes).unwrap_or_else(|e| vkit::machinery!("write blob: {e}"));
+            paths.push_str(&format!("{}\n", p.display()));
+        }
+    }
+    let out = git::git_in(&dir, &["hash-object", "-w", "--stdin-paths"], paths.as_bytes());
+    let mut blob_ids = String::from_utf8_lossy(&out).lines().map(str::to_string).collect::<Vec<_>>().into_iter();
     for (name, mt, bytes) in &kinds {
         let oid = if *name == "sub" {
             commit.clone()
         } else {
-            String::from_utf8_lossy(&git::git_in(&dir, &["hash-object", "-w", "--stdin"], bytes)).trim().to_string()
+            blob_ids.next().unwrap_or_else(|| vkit::machinery!("hash-object returned too few ids"))
         };
         table.insert(name.to_string(), (mt.to_string(), oid));
         let k = match *mt {
@@ -202,17 +279,14 @@ pub fn run(run: &'static Run) {
     alpha.extend(kind_names.iter().map(|k| Some(*k)));
     vkit::enumerate::seqs(&alpha, SLOTS.len(), SLOTS.len(), |assign| {
         let m: Map = SLOTS.iter().zip(assign).filter_map(|(p, k)| k.map(|k| (p.to_string(), k.to_string()))).collect();
-        if m.len() < max_entries || (m.len() == max_entries && m.values().all(|k| core.contains(&k.as_str()))) {
+        let slots_ok = !quick || m.len() < 2 || (m.contains_key("d/e/c") && (m.contains_key("a") || m.contains_key("d/b")));
+        if m.len() < max_entries || (m.len() == max_entries && slots_ok && m.values().all(|k| core.contains(&k.as_str()))) {
             maps.push(m);
         }
     });
     maps.sort_by_key(|m| m.len());
     let trees = build_trees(&dir, &table, &maps);
     run.cov("trees", maps.len());
-    // pack everything: reading loose objects is very slow for git on a loaded machine
-    let all = git::git(&dir, &["cat-file", "--batch-all-objects", "--batch-check=%(objectname)"]);
-    git::git_in(&dir, &["pack-objects", "-q", ".git/objects/pack/pack"], &all);
-    git::git(&dir, &["prune-packed", "-q"]);
     let store = std::sync::Arc::new(
         gix_odb::Store::at_opts(dir.join(".git/objects"), &mut None.into_iter(), gix_odb::store::init::Options::default())
             .unwrap_or_else(|e| vkit::machinery!("gix-odb cannot open fixture: {e}")),
@@ -223,6 +297,15 @@ pub fn run(run: &'static Run) {
         stage_us[slot].fetch_add(t.elapsed().as_micros() as u64, Ordering::Relaxed);
         *t = std::time::Instant::now();
     };
+    // the real tools tar(1)/unzip(1) are run on: thorough = every tree with <= 1 entry; quick = the empty tree with every
+    // extra and each kind once at the deepest slot
+    let real_tools = move |c: &Case| -> bool {
+        if quick {
+            c.tree.is_empty() || (c.tree.len() == 1 && c.tree.contains_key("d/e/c") && c.extra == "none")
+        } else {
+            c.tree.len() <= 1
+        }
+    };
     let git_listings: std::sync::Mutex<HashMap<ObjectId, Listing>> = Default::default();
     let big_streamed = AtomicU64::new(0);
     let with_sub = AtomicU64::new(0);
@@ -232,12 +315,11 @@ pub fn run(run: &'static Run) {
         |emit| {
             for m in &maps {
                 // the additional entries are independent of the tree: all of them for trees with <=1 entry, none|file otherwise (quick: file only)
-                let extras: &[&str] = if m.len() <= 1 {
-                    &["none", "file", "exe", "link", "dir"]
-                } else if quick {
-                    &["file"]
-                } else {
-                    &["none", "file"]
+                let extras: &[&str] = match (m.len(), quick) {
+                    (0, _) | (1, false) => &["none", "file", "exe", "link", "dir"],
+                    (1, true) => &["none", "file", "link"],
+                    (_, true) => &["file"],
+                    (_, false) => &["none", "file"],
                 };
                 for e in extras {
                     emit(Case { tree: m.clone(), extra: e.to_string() });
@@ -319,7 +401,7 @@ pub fn run(run: &'static Run) {
                 Err(e) => return bad("tar-unreadable", format!("tar archive does not parse: {e}")),
             };
             // ... and tar(1) itself must accept ours and produce the same files (trees with <= 1 entry, every extra)
-            if c.tree.len() <= 1 {
+            if real_tools(c) {
                 let ours_dir = scratch.join("ours");
                 std::fs::create_dir_all(&ours_dir).unwrap_or_else(|e| vkit::machinery!("mkdir: {e}"));
                 let mut cmd = std::process::Command::new("tar");
@@ -364,41 +446,52 @@ pub fn run(run: &'static Run) {
             }
 
             lap(3, &mut t0);
-            // (3) zip
-            let zip_path = scratch.join("ours.zip");
+            // (3) zip: written into memory, read by an independent central-directory reader (inflate + CRC check) ...
+            let mut zip = std::io::Cursor::new(Vec::new());
             let mut stream = new_stream(&odb, tree_id, &c.extra);
-            {
-                let file = std::fs::File::create(&zip_path).unwrap_or_else(|e| vkit::machinery!("create zip: {e}"));
-                if let Err(e) = gix_archive::write_stream_seek(
-                    &mut stream,
-                    gix_worktree_stream::Stream::next_entry,
-                    file,
-                    gix_archive::Options {
-                        format: gix_archive::Format::Zip { compression_level: Some(1) },
-                        tree_prefix: None,
-                        modification_time: 1112911993,
-                    },
-                ) {
-                    return bad("zip-error", e);
-                }
+            if let Err(e) = gix_archive::write_stream_seek(
+                &mut stream,
+                gix_worktree_stream::Stream::next_entry,
+                &mut zip,
+                gix_archive::Options {
+                    format: gix_archive::Format::Zip { compression_level: Some(1) },
+                    tree_prefix: None,
+                    modification_time: 1112911993,
+                },
+            ) {
+                return bad("zip-error", e);
             }
+            let zip = zip.into_inner();
             lap(4, &mut t0);
-            let zip_dir = scratch.join("zip");
-            std::fs::create_dir_all(&zip_dir).unwrap_or_else(|e| vkit::machinery!("mkdir: {e}"));
-            // unzip(1) verifies the CRCs, restores unix modes and re-creates symlinks
-            let mut cmd = std::process::Command::new("unzip");
-            cmd.arg("-q").arg(&zip_path).arg("-d").arg(&zip_dir);
-            let o = git::run_cmd(cmd, None);
-            // exit code 1 = warnings only; an archive without any entry makes unzip complain ("zipfile is empty")
-            if !o.ok && !(expected.is_empty() && String::from_utf8_lossy(&o.stdout).contains("empty") || String::from_utf8_lossy(&o.stderr).contains("empty")) {
-                return bad("zip-unreadable", format!("unzip rejects the archive (code {:?}): {} {}", o.code, o.text(), o.err_text()));
-            }
-            let got = snapshot_files(&zip_dir);
+            let (got, got_dirs) = match parse_zip(&zip) {
+                Ok(l) => l,
+                Err(e) => return bad("zip-unreadable", format!("zip archive does not parse: {e}")),
+            };
             if got != want_listing {
                 return bad("zip-content", format!("zip holds [{}], expected [{}]", brief(&got), brief(&want_listing)));
             }
-            if c.extra == "dir" && !zip_dir.join("extra-dir").is_dir() {
+            if c.extra == "dir" && !got_dirs.iter().any(|d| d == "extra-dir") {
                 return bad("zip-content", "additional directory entry is missing in the zip");
+            }
+            // ... and unzip(1) itself must accept it and produce the same files (trees with <= 1 entry, every extra)
+            if real_tools(c) && !expected.is_empty() {
+                let zip_path = scratch.join("ours.zip");
+                std::fs::write(&zip_path, &zip).unwrap_or_else(|e| vkit::machinery!("write zip: {e}"));
+                let zip_dir = scratch.join("zip");
+                std::fs::create_dir_all(&zip_dir).unwrap_or_else(|e| vkit::machinery!("mkdir: {e}"));
+                let mut cmd = std::process::Command::new("unzip");
+                cmd.arg("-q").arg(&zip_path).arg("-d").arg(&zip_dir);
+                let o = git::run_cmd(cmd, None);
+                if !o.ok {
+                    return bad("zip-unreadable", format!("unzip rejects the archive (code {:?}): {} {}", o.code, o.text(), o.err_text()));
+                }
+                let extracted = snapshot_files(&zip_dir);
+                if extracted != got {
+                    return bad("zip-content", format!("unzip extracted [{}], the directory describes [{}]", brief(&extracted), brief(&got)));
+                }
+                if c.extra == "dir" && !zip_dir.join("extra-dir").is_dir() {
+                    return bad("zip-content", "additional directory entry is missing after unzip");
+                }
             }
 
             lap(5, &mut t0);
@@ -424,7 +517,7 @@ pub fn run(run: &'static Run) {
         },
     );
     run.cov(
-        "stage_thread_ms[stream,tar,git-archive,compare,zip-write,unzip]",
+        "stage_thread_ms[stream,tar,git-archive,compare,zip-write,zip-read]",
         stage_us.iter().map(|a| a.load(Ordering::Relaxed) / 1000).collect::<Vec<_>>(),
     );
     run.cov("cases_with_file_at_buffer_size", big_streamed.load(Ordering::Relaxed));
